@@ -13,7 +13,10 @@ PROP = {'rule': 'rapid-generated cases. budget: (capacity 1-256 cores incl. frac
          '+-1 of the bypass / step boundaries, cgroup v1/v2); non-trivial = quota rewritten from a set value. suppressHistory: the same '
          'scenarios, 2-5 rounds of the real suppressBECPU on one plugin + one executor (cache started, no sleeping), NodeSLO policy '
          'drawn per round (cfsQuota / cpuset / disabled / BECPUManager gate), load equal to or different from the previous round; '
-         'non-trivial = the history switches back to a policy it used before. distinct = FNV-64 of the full case.',
+         'non-trivial = the history switches back to a policy it used before. In adjustByCPUSet and suppressHistory the BE tree may '
+         'start non-uniform (descendants narrower than the root) and, under kubelet policy none, a crash-recovery state is injected '
+         'after a round (root keeps the set, some pod/container dirs are cut to strict non-empty subsets, agent restarted with an '
+         'empty executor cache, same inputs repeated). distinct = FNV-64 of the full case.',
  'assumptions': ['pkg/koordlet/util/perf_group/perf_group_linux.go is replaced (build overlay only) by a cgo-free stand-in with the '
                  'same exported surface, because libpfm4 headers are not installed; no oracle touches perf counters',
                  'processor lists are what koordletutil.getProcessorInfos yields: non-empty, unique CPU ids, sorted by (node, socket, core, '
@@ -25,8 +28,12 @@ PROP = {'rule': 'rapid-generated cases. budget: (capacity 1-256 cores incl. frac
                  'budget tolerance: computed - exact in [-1.001, +3.001] milli-cores; monotonicity slack 3 milli-cores',
                  'quota mode: the documented small-change bypass (<1% of the node) and step limit (10% of the node) are part of the expected '
                  'value; a bypass while the quota is still unset (-1) is reported, because -1 is a sentinel, not a quantity',
-                 'a derived set counts as written only if the plugin handed an update for that cgroup file to the executor; its value is '
-                 'read back from the file under the temp cgroup root'],
+                 'a cgroup dir is judged when the plugin handed an update for that file to the executor, or when enough CPUs are eligible '
+                 '(then it must hold the target whether or not the round had to write it); values are read back from the files under the '
+                 'temp cgroup root. After a cpuset-mode round under kubelet policy none every BE dir must hold the same set as the root; '
+                 'under the static policy root/pod dirs that were written must hold every unprotected CPU and all containers the same set',
+                 'a crash is modelled as an agent restart (new plugin, new executor cache): files changed behind a running executor '
+                 'within its force-update window are not modelled'],
  'units': [{'name': 'cpusuppress',
             'pkg': 'pkg/koordlet/qosmanager/plugins/cpusuppress',
             'files': ['C10/c10_test.go'],
